@@ -41,10 +41,19 @@ def check(c):
                                   'itask.clock_expire()'], ce)
         c.pre('C32.sender', ce, n, c.matches(
             'self.task_queue_mgr.remove_task(itask)'), 'dequeue')
-        lp = c.idx.parent[id(c.idx.parent[id(c.idx.stmt_of(n))])]
+        lp = c.idx.stmt_of(n)
+        while lp is not None and not isinstance(lp, ast.For):
+            lp = c.idx.parent.get(id(lp))
         c.ob('C32.sender', c.key(n, ce)[:100] + ' sweeps the whole pool',
              isinstance(lp, ast.For) and norm(lp.iter) == 'self.get_tasks()',
              c.where(n, ce), '')
+    # the manual-trigger exemption works only if the flag is set on *every*
+    # path of a manual trigger -- also when the task ends up queued behind a
+    # full queue instead of running at once
+    qt = c.func(TP, 'TaskPool.queue_or_trigger')
+    c.always('C32.manual-exempt', qt, c.assigns(
+        'itask.is_manual_submit', 'True'),
+        'is_manual_submit = True on every path of queue_or_trigger')
     # all senders of "expired"
     senders = [n for n in c.calls(None, 'process_message') if any(
         isinstance(a, (ast.Name, ast.Attribute, ast.Constant)) and c.fold(
@@ -168,4 +177,8 @@ VARIANTS = [
             )''', '''            self.expire_time = (
                 self.get_point_as_seconds()
             )''', 'C32.predicate'),
+    ('manual-flag-only-when-run-now', 'cylc/flow/task_pool.py',
+     '''        itask.is_manual_submit = True
+        itask.reset_try_timers()''', '''        itask.reset_try_timers()''',
+     'C32.manual-exempt'),
 ]
